@@ -42,9 +42,10 @@ type entry struct {
 	dom       func(a []interface{}) bool
 	limit     func(a []interface{}, ref interface{}, lim int) bool // small-MaxStringLen rule: limit error expected?
 	noWrong   bool
-	knownErr  string   // id of the known finding "Go error raised as run-time error" this entry is part of
 	badCount  []string // script bodies that must raise a run-time error (wrong counts; enum)
-	wrongBase []interface{}
+	// errBeforeTypes: the wrapper reports a Go error of an earlier argument before it looks at the later ones
+	// (region of known finding S4): wrong-typed probes use value-returning bases only
+	errBeforeTypes bool
 }
 
 func (e *entry) minMax() (int, int) {
@@ -684,10 +685,6 @@ func (e *entry) checkValue(r *lib.RNG, gvs []interface{}, coerce bool) {
 		res.Violate(lib.Violation{Signature: e.id + "-panics", Stream: "value", Input: inputOf(e, gvs, ""), Observed: got.String(), Expected: exp,
 			Oracle: "direct Go call of the documented function"})
 	case got.err != nil:
-		if isErr && e.knownErr != "" && strings.Contains(got.err.Error(), string(want.(errVal))) {
-			res.Dist("value:known-" + e.knownErr + "-region")
-			return
-		}
 		sig := e.id + "-right-typed-arguments-rejected"
 		if isErr {
 			sig = e.id + "-go-error-raised-as-runtime-error"
@@ -723,9 +720,6 @@ func (e *entry) genTuple(r *lib.RNG) []interface{} {
 }
 
 func (e *entry) base() []interface{} {
-	if e.wrongBase != nil {
-		return e.wrongBase
-	}
 	_, max := e.minMax()
 	for _, f := range e.fixed {
 		if len(f) == max && e.inDom(f) {
@@ -735,14 +729,32 @@ func (e *entry) base() []interface{} {
 	return nil
 }
 
+func (e *entry) bases() [][]interface{} {
+	var out [][]interface{}
+	_, max := e.minMax()
+	for _, f := range e.fixed {
+		if len(f) != max || !e.inDom(f) {
+			continue
+		}
+		if v, p := e.safeRef(f); !p {
+			if _, isErr := v.(errVal); !isErr || !e.errBeforeTypes {
+				out = append(out, f)
+			}
+		}
+	}
+	return out
+}
+
 func (e *entry) checkWrongTypes(r *lib.RNG) {
 	if e.noWrong {
 		return
 	}
-	base := e.base()
-	if base == nil {
-		return
+	for _, base := range e.bases() {
+		e.checkWrongTypesOn(r, base)
 	}
+}
+
+func (e *entry) checkWrongTypesOn(r *lib.RNG, base []interface{}) {
 	for p := range base {
 		for _, w := range wrongSamples(e.kind(p)) {
 			args := e.objs(r, base, false)
